@@ -15,7 +15,7 @@ LEVEL_TEXT = (
     "right-hand-side class has a rule or is empty by enumeration; equivalence paths chain), single-valuedness "
     "of class->rule, genuineness (the innermost strategy is produced by the pack or its factories for that "
     "class and re-applying it reproduces the recorded children; derived equivalence/reverse forms have exactly "
-    "the parent/children the form prescribes), and productivity decided from (parent, children, shifts) alone by "
+    "the parent/children the form prescribes), and productivity decided from (parent, children, shifts re-derived from minimum sizes) alone by "
     "the independent least-fixed-point solver."
 )
 LEVEL_NOTE = (
